@@ -9,6 +9,7 @@ import (
 	"strconv"
 	"strings"
 	"sync"
+	"sync/atomic"
 	"time"
 
 	hclog "github.com/hashicorp/go-hclog"
@@ -31,9 +32,16 @@ type recLogger struct {
 	mu   *sync.Mutex
 	recs *[]logRec
 	name string
+	// the level the logger reports through IsTrace..IsError (shared with its named children, changed by SetLevel like
+	// hclog's); every call is recorded whatever the level, as an intercepting sink would see it
+	lvl *atomic.Int32
 }
 
-func newRecLogger() *recLogger { return &recLogger{mu: &sync.Mutex{}, recs: &[]logRec{}} }
+func newRecLogger() *recLogger {
+	l := &recLogger{mu: &sync.Mutex{}, recs: &[]logRec{}, lvl: &atomic.Int32{}}
+	l.lvl.Store(int32(hclog.Trace))
+	return l
+}
 
 func (l *recLogger) Log(level hclog.Level, msg string, args ...interface{}) {
 	l.mu.Lock()
@@ -45,21 +53,21 @@ func (l *recLogger) Debug(m string, a ...interface{}) { l.Log(hclog.Debug, m, a.
 func (l *recLogger) Info(m string, a ...interface{})  { l.Log(hclog.Info, m, a...) }
 func (l *recLogger) Warn(m string, a ...interface{})  { l.Log(hclog.Warn, m, a...) }
 func (l *recLogger) Error(m string, a ...interface{}) { l.Log(hclog.Error, m, a...) }
-func (l *recLogger) IsTrace() bool                    { return true }
-func (l *recLogger) IsDebug() bool                    { return true }
-func (l *recLogger) IsInfo() bool                     { return true }
-func (l *recLogger) IsWarn() bool                     { return true }
-func (l *recLogger) IsError() bool                    { return true }
+func (l *recLogger) IsTrace() bool                    { return l.lvl.Load() <= int32(hclog.Trace) }
+func (l *recLogger) IsDebug() bool                    { return l.lvl.Load() <= int32(hclog.Debug) }
+func (l *recLogger) IsInfo() bool                     { return l.lvl.Load() <= int32(hclog.Info) }
+func (l *recLogger) IsWarn() bool                     { return l.lvl.Load() <= int32(hclog.Warn) }
+func (l *recLogger) IsError() bool                    { return l.lvl.Load() <= int32(hclog.Error) }
 func (l *recLogger) ImpliedArgs() []interface{}       { return nil }
 func (l *recLogger) With(...interface{}) hclog.Logger { return l }
 func (l *recLogger) Name() string                     { return l.name }
 func (l *recLogger) Named(n string) hclog.Logger {
-	return &recLogger{mu: l.mu, recs: l.recs, name: l.name + "/" + n}
+	return &recLogger{mu: l.mu, recs: l.recs, name: l.name + "/" + n, lvl: l.lvl}
 }
 func (l *recLogger) ResetNamed(n string) hclog.Logger {
-	return &recLogger{mu: l.mu, recs: l.recs, name: n}
+	return &recLogger{mu: l.mu, recs: l.recs, name: n, lvl: l.lvl}
 }
-func (l *recLogger) SetLevel(hclog.Level) {}
+func (l *recLogger) SetLevel(v hclog.Level) { l.lvl.Store(int32(v)) }
 func (l *recLogger) StandardLogger(*hclog.StandardLoggerOptions) *log.Logger {
 	return log.New(io.Discard, "", 0)
 }
@@ -261,15 +269,24 @@ func init() {
 				}
 			}
 			wrote := make(chan string, 2)
+			lg := newRecLogger()
+			if p["lvl"] == "late" {
+				// the application's logger is at INFO while the client is created and started and is turned up to TRACE
+				// (a log-level reload) before the plugin produces any output
+				lg.SetLevel(hclog.Info)
+			}
 			r := newScriptRunner(x, func(r *scriptRunner) {
 				fmt.Fprintf(r.stdout, "1|1|tcp|127.0.0.1:1234|netrpc|\n")
+				if p["lvl"] == "late" {
+					r.x.Pause(50 * time.Millisecond)
+					lg.SetLevel(hclog.Trace)
+				}
 				go func() { r.stderr.Write(errBytes); wrote <- "stderr" }()
 				go func() { r.stdout.Write(outBytes); wrote <- "stdout" }()
 				r.waitKilled()
 			})
 			var fwd bytes.Buffer
 			var fmu sync.Mutex
-			lg := newRecLogger()
 			cfg := &plugin.ClientConfig{
 				HandshakeConfig:     plugin.HandshakeConfig{MagicCookieKey: "VK", MagicCookieValue: "vv", ProtocolVersion: 1},
 				Plugins:             plugin.PluginSet{"p": &tagPlugin{tag: "t"}},
@@ -434,6 +451,16 @@ func init() {
 					fs = append(fs, strconv.Itoa(i))
 				}
 				out = append(out, explore.Params{"B": B, "err": strings.Join(fs, ","), "nl": nl, "out": "", "onl": "1"})
+			}
+			for _, B := range Bs {
+				for a := 0; a < n; a++ {
+					out = append(out, explore.Params{"B": B, "err": strconv.Itoa(a), "nl": "1", "out": "", "onl": "1", "lvl": "late"})
+					if tier == "thorough" {
+						for b := 0; b < n; b++ {
+							out = append(out, explore.Params{"B": B, "err": strconv.Itoa(a) + "," + strconv.Itoa(b), "nl": "1", "out": "", "onl": "1", "lvl": "late"})
+						}
+					}
+				}
 			}
 			for _, B := range Bs {
 				for a := 0; a < n; a++ {
